@@ -25,7 +25,7 @@ ASSUMPTIONS = ["only option keys whose resolved value is a plain copy of the arg
                "are excluded", "defaults are read from runpp's signature at run time"]
 REACH_PROBES = ["passed_equals_default_with_conflicting_stored", "passed_differs_with_conflicting_stored",
                 "stored_applied_without_passed", "runpp_failed_with_stored_options", "options_after_save_load",
-                "runpp_via_run_control"]
+                "runpp_via_run_control", "init_results_passed_after_failed_run"]
 
 VALUES = {
     # (values close to, but different from, a float default are legal explicit arguments too)
@@ -37,7 +37,7 @@ VALUES = {
     "algorithm": ["nr", "iwamoto_nr", "bfsw"],
     "max_iteration": ["auto", 15, 25],
     "calculate_voltage_angles": [True, False],
-    "init": ["auto", "flat", "dc"],
+    "init": ["auto", "flat", "dc", "results", "results"],
     "switch_rx_ratio": [2, 1.5, 2.0000001],
     "trafo3w_losses": ["hv", "star"],
     "v_debug": [False, True],
@@ -135,11 +135,14 @@ class OptionsModel:
         return defaults.get(key), "default"
 
 
-def _expected_init(v):
+def _expected_init(v, had_results=False):
     if v == "flat":
         return ("flat", "flat")
     if v == "dc":
         return ("flat", "dc")
+    if v == "results" and had_results:
+        # (with an empty res_bus pandapower documents the fall-back to "auto")
+        return ("results", "results")
     return None
 
 
@@ -198,6 +201,9 @@ def _exec_runpp(net, op, i, ctx, model, defaults):
         def undo():
             net.ext_grid["in_service"] = old.values
     stored_before = copy.deepcopy(dict(net.user_pf_options))
+    had_results = len(net.res_bus) > 0
+    if had_results and passed.get("init") == "results" and net.res_bus.vm_pu.isna().all():
+        ctx.probe("init_results_passed_after_failed_run")
     opts_before = net.get("_options", None)
     args = []
     kwargs = dict(passed)
@@ -259,7 +265,7 @@ def _exec_runpp(net, op, i, ctx, model, defaults):
         for key in sorted(VALUES):
             want, src = model.resolve(key, passed, defaults)
             if key == "init":
-                exp = _expected_init(want)
+                exp = _expected_init(want, had_results)
                 if exp is None or "init_vm_pu" in model.stored or "init_va_degree" in model.stored:
                     continue
                 got = (o.get("init_vm_pu"), o.get("init_va_degree"))
